@@ -4,15 +4,16 @@
 package rewrite
 
 import (
-	"reflect"
 	"bytes"
 	"fmt"
 	"go/ast"
 	"go/format"
+	"go/parser"
 	"go/token"
 	"go/types"
 	"os"
 	"path/filepath"
+	"reflect"
 	"sort"
 	"strconv"
 	"strings"
@@ -46,6 +47,9 @@ var NetFiles = map[string]bool{
 // other threads can run between two such statements although no synchronisation operation separates them.
 var RacyFields = map[string]bool{
 	"upstream.slots": true,
+	// proc/redis: the service configuration is swapped by a plain pointer write (config.Update) while request
+	// goroutines read it (directly or through the promoted getters of the embedded *service.Config)
+	"config.Config": true,
 }
 
 // Result of instrumenting one package.
@@ -91,6 +95,37 @@ func Instrument(repo string, pkgs []string, env []string) (*Result, error) {
 			}
 			res.Files[path] = out
 		}
+	}
+	return res, nil
+}
+
+// InstrumentLight produces the files of the free-running (-race) build: the code is left exactly as it is -
+// real goroutines, channels, selects, locks, timers - except that the files which dial or look at socket
+// options (NetFiles) import the in-memory network instead of "net".
+func InstrumentLight(repo string) (*Result, error) {
+	res := &Result{Files: map[string][]byte{}, Stats: map[string]int{}}
+	for rel := range NetFiles {
+		path := filepath.Join(repo, rel)
+		fset := token.NewFileSet()
+		f, err := parser.ParseFile(fset, path, nil, parser.ParseComments)
+		if err != nil {
+			return nil, err
+		}
+		for _, imp := range f.Imports {
+			if p, _ := strconv.Unquote(imp.Path.Value); p == "net" {
+				imp.Path.Value = strconv.Quote(RT + "vnet")
+				if imp.Name == nil {
+					imp.Name = ast.NewIdent("net")
+				}
+				res.Stats["imports"]++
+			}
+		}
+		var buf bytes.Buffer
+		buf.WriteString("//go:build go1.21\n\n")
+		if err := format.Node(&buf, fset, f); err != nil {
+			return nil, err
+		}
+		res.Files[path] = buf.Bytes()
 	}
 	return res, nil
 }
@@ -182,26 +217,34 @@ func pureExpr(e ast.Expr) bool {
 	return false
 }
 
-// racyName returns "Type.field" when sel selects a listed racy field.
+// racyName returns "Type.field" when sel reads or writes a listed racy field: directly, or implicitly because
+// the selected field or method is promoted through it (x.cfg.GetRedisOption() reads x.cfg.Config).
 func (r *rewriter) racyName(sel *ast.SelectorExpr) string {
 	s, ok := r.info.Selections[sel]
-	if !ok || s.Kind() != types.FieldVal {
-		return ""
-	}
-	t := s.Recv()
-	if p, ok := t.Underlying().(*types.Pointer); ok {
-		t = p.Elem()
-	}
-	if p, ok := t.(*types.Pointer); ok {
-		t = p.Elem()
-	}
-	n, ok := t.(*types.Named)
 	if !ok {
 		return ""
 	}
-	name := n.Obj().Name() + "." + sel.Sel.Name
-	if RacyFields[name] {
-		return name
+	path := s.Index()
+	if s.Kind() != types.FieldVal {
+		path = path[:len(path)-1] // the last index selects the method
+	}
+	t := s.Recv()
+	for _, idx := range path {
+		if p, ok := t.Underlying().(*types.Pointer); ok {
+			t = p.Elem()
+		}
+		named, _ := t.(*types.Named)
+		st, ok := t.Underlying().(*types.Struct)
+		if !ok || idx >= st.NumFields() {
+			return ""
+		}
+		f := st.Field(idx)
+		if named != nil {
+			if name := named.Obj().Name() + "." + f.Name(); RacyFields[name] {
+				return name
+			}
+		}
+		t = f.Type()
 	}
 	return ""
 }
